@@ -19,7 +19,7 @@ fn main() {
     for i in 0..n {
         let case = game(params).new_tree(&mut runner).unwrap().current();
         let mut st = Stats::default();
-        let r = run_case(&case, &WalkOpts { profile, expand: None, follow_norep: false, inject: arimaa_verif::drive::Inject::No, interfere: false }, &mut Nop, &mut st);
+        let r = run_case(&case, &WalkOpts { profile, expand: None, follow_norep: false, inject: arimaa_verif::drive::Inject::No, interfere: false, play_on: false }, &mut Nop, &mut st);
         if let Ok((end, tr)) = r {
             *by.entry(end.ended_by).or_insert(0) += 1;
             if i < 12 {
